@@ -2257,6 +2257,67 @@ fn enum_e7(thorough: bool) -> Vec<String> {
     out
 }
 
+
+/// E8 (every configuration): [pre] T(body) [post] [return] for EVERY scope-opening construct —
+/// do, while, repeat-until (the condition reading a body local), numeric / generic for (incl.
+/// step, duplicated loop variables), if / else / elseif branches, local function, function
+/// statement (plain, field, method), function expression as a local value, an assigned field
+/// and a call argument, with plain, repeated and `self` parameters — over bodies that declare
+/// generated-looking names (a, b) once, twice in the same scope (`local a, a`, `local a` twice,
+/// repeated parameters / loop variables), as kept local functions, followed after the scope
+/// closes by a live local and by global uses of those names. Each program runs under all 12
+/// configurations (include_functions × detect_globals × 3 globals lists) in both tiers.
+fn enum_e8() -> Vec<String> {
+    let mut ts = templates(true);
+    let mut add = |p: &str, s: &str| ts.push((p.to_owned(), s.to_owned()));
+    add("if x then\nelse", "end");
+    add("if x then\nelseif a then", "end");
+    add("if x then\nelseif a then\nelse", "end");
+    add("for x = 1, a, x do", "end");
+    add("for a, a in x do", "end");
+    add("for a, b, a in x do", "end");
+    add("local function x(a, a)", "end");
+    add("local function b(a, b, a)", "end");
+    add("local x = function(a, a)", "end");
+    add("function x(a, a)", "end");
+    add("function x:m(a, a)", "end");
+    add("x(function(a)", "end)");
+    add("x(function(a, a)", "end)");
+    add("t.f = function(a)", "end");
+    add("x = function(a, b)", "end");
+    add("repeat local a = x", "until a");
+    add("while a do local a, a = x", "end");
+    let bodies = [
+        "",
+        "local a = x",
+        "local a, a = 1, 2",
+        "local a = 1\nlocal a = 2",
+        "local b, b = a, x",
+        "local function a() end",
+        "local function a() end\nlocal function a() end",
+        "local function b() return a end",
+        "a = x",
+        "return a",
+    ];
+    let pres = ["", "local x = 1", "local a = 1", "local function a() end"];
+    let posts = ["", "local x = 1", "local x = a", "local a = x", "local function x() end"];
+    let rets = ["", "return a", "return x", "return a, b, x"];
+    let mut out = Vec::new();
+    for t in &ts {
+        for b in bodies {
+            let s = wrap(t, b);
+            for pre in pres {
+                for post in posts {
+                    for r in rets {
+                        out.push(join2(&join2(pre, &s), &join2(post, r)));
+                    }
+                }
+            }
+        }
+    }
+    out
+}
+
 // ------------------------------------------------------------------------------------------
 // (ii) random structured programs
 // ------------------------------------------------------------------------------------------
@@ -2986,7 +3047,7 @@ fn replay_corpus(report: &mut Report) {
 // ------------------------------------------------------------------------------------------
 
 pub fn run(report: &mut Report, replay: Option<&str>) {
-    report.rule = "programs: (i) exhaustive enumerations E1..E6 of small programs over the names x, a, self (a collides with the first generated name), E7 directed: source names equal to generated names (`_`, a, b, z, A, Z, aa, ab, a_, aZ; thorough adds ba, zz, _a, __, Za, a0) inside N live locals with N swept across the name's ordinal in the generated sequence, and for-in loops shadowing their own iterator expressions crossed with include_functions × detect_globals × 3 globals lists, (ii) seeded random structured programs to nesting depth 6 with shadowing/capture/reuse patterns and Luau annotations in safe positions, (iii) stress (>64, >4000 live locals, one name declared 262k times in one scope) and keyword-like identifiers. One evaluation = one (program, configuration) through: real rule, event-stream correspondence with the Lean model, CollectGlobals and resolver correspondence, independent binding-graph oracle. Non-trivial = at least one declaration renamed AND at least one shadowing, upvalue capture or reuse of a generated name after scope exit; keyed by (input event stream, configuration).".to_owned();
+    report.rule = "programs: (i) exhaustive enumerations E1..E6 of small programs over the names x, a, self (a collides with the first generated name), E7 directed: source names equal to generated names (`_`, a, b, z, A, Z, aa, ab, a_, aZ; thorough adds ba, zz, _a, __, Za, a0) inside N live locals with N swept across the name's ordinal in the generated sequence, and for-in loops shadowing their own iterator expressions, E8: every scope-opening construct (do/while/repeat-until reading body locals/numeric+generic for/if-else-elseif/local function/function statement/method/function expression as value, field, argument; repeated parameters and loop variables) x bodies declaring a, b once / twice in one scope / as kept local functions x a live local and global uses after the scope closes, under ALL 12 configurations crossed with include_functions × detect_globals × 3 globals lists, (ii) seeded random structured programs to nesting depth 6 with shadowing/capture/reuse patterns and Luau annotations in safe positions, (iii) stress (>64, >4000 live locals, one name declared 262k times in one scope) and keyword-like identifiers. One evaluation = one (program, configuration) through: real rule, event-stream correspondence with the Lean model, CollectGlobals and resolver correspondence, independent binding-graph oracle. Non-trivial = at least one declaration renamed AND at least one shadowing, upvalue capture or reuse of a generated name after scope exit; keyed by (input event stream, configuration).".to_owned();
 
     if let Some(path) = replay {
         let text = std::fs::read_to_string(path).unwrap_or_default();
@@ -3011,15 +3072,28 @@ pub fn run(report: &mut Report, replay: Option<&str>) {
         programs.into_iter().enumerate().map(|(i, p)| (Src::Text(p), slices[i % 3].clone())).collect()
     };
 
+    let every = std::sync::Arc::new(configs.clone());
+    {
+        // E8 × all 12 configurations in both tiers; the directed families run FIRST so that, when a
+        // change breaks the property broadly, the (capped) reported inputs are the minimal ones
+        let name = "E8 every scope construct x duplicate / kept / generated-looking names x all 12 configurations";
+        let programs = enum_e8();
+        let n = programs.len();
+        report.count(&format!("enumerated:{}", name), n as u64);
+        let items: Vec<Item> = programs.into_iter().map(|p| (Src::Text(p), every.clone())).collect();
+        run_parallel(report, name, items, true);
+        report.exhaustive.insert(format!("{}: all {} programs x all 12 configurations", name, n), true);
+    }
+
     // (i) exhaustive enumerations
     let families: Vec<(&str, Vec<String>)> = vec![
+        ("E7 source names equal to generated names x N live locals; for-in shadowing", enum_e7(thorough)),
         ("E1 [leaf] template(body) [leaf] [return]", enum_e1(thorough)),
         ("E2 template(template(body))", enum_e2(thorough)),
         ("E3 sibling scopes", enum_e3()),
         ("E4 if/elseif/else bodies", enum_e4()),
         ("E5 expression forms depth<=2", enum_e5()),
         ("E6 multiple local assignment", enum_e6()),
-        ("E7 source names equal to generated names x N live locals; for-in shadowing", enum_e7(thorough)),
     ];
     let rotating: Vec<std::sync::Arc<Vec<Cfg>>> = (0..3).map(|r| std::sync::Arc::new(config_slice(&configs, r, false))).collect();
     for (name, programs) in families {
@@ -3042,7 +3116,6 @@ pub fn run(report: &mut Report, replay: Option<&str>) {
     }
 
     // edge programs × all configurations
-    let every = std::sync::Arc::new(configs.clone());
     let edge: Vec<Item> = edge_programs().into_iter().map(|p| (Src::Text(p), every.clone())).collect();
     run_parallel(report, "edge (keyword-like names, empty, bare return)", edge, true);
 
